@@ -16,6 +16,10 @@ def obligations(tier, seed):
     tasks = []
     for nm in (c01x.COMB_QUICK if tier == "quick" else c01x.COMB_THOROUGH):
         tasks.append(dict(name=nm, func="c02:ob_logdet_all", kwargs=dict(spec_name=nm), cost=3.0 if nm.startswith("coupling") else 1.0))
+    # BlockAutoregressiveNetwork: the log-space accumulation of block Jacobians (logmatmulexp with -inf off-diagonal entries) against the
+    # autodiff Jacobian, all weights symbolic under the C09/C11 invariant (larger blocks / depth 2 / conditional variants do not discharge)
+    for nm in ("bnaf2d0", "bnaf2"):
+        tasks.append(dict(name=nm + "/fwd", func="c02x:ob_logdet_fwd_all", kwargs=dict(spec_name=nm), cost=8.0))
     for nm in (c01x.FWD_ONLY_QUICK if tier == "quick" else c01x.FWD_ONLY_THOROUGH):
         tasks.append(dict(name=nm + "/fwd", func="c02x:ob_logdet_fwd_all", kwargs=dict(spec_name=nm), cost=6.0))
     return tasks
